@@ -18,34 +18,35 @@ pub fn fbits(f: f64) -> u64 {
         f.to_bits()
     }
 }
-/// distinct ids map to distinct names that a sloppy lookup (case-insensitive, trimmed, prefix) would confuse
+/// distinct ids map to distinct names that a sloppy lookup (trimmed, case-insensitive, prefix) would confuse
 pub fn var_name(id: i128) -> String {
-    let k = id.div_euclid(4);
-    match id.rem_euclid(4) {
+    let k = id.div_euclid(5);
+    match id.rem_euclid(5) {
         0 => format!("n{k}"),
-        1 => format!("N{k}"),
-        2 => format!("n{k}_"),
-        _ => format!("n{k} "),
+        1 => format!(" n{k}"),
+        2 => format!("N{k}"),
+        3 => format!("n{k} "),
+        _ => format!("n{k}_"),
     }
 }
 
 /// inverse of `var_name`
 pub fn var_id(s: &str) -> Option<i128> {
-    let (r, body) = if let Some(b) = s.strip_prefix('N') {
-        (1, b)
-    } else if let Some(b) = s.strip_prefix('n') {
-        if let Some(b2) = b.strip_suffix('_') {
-            (2, b2)
-        } else if let Some(b2) = b.strip_suffix(' ') {
-            (3, b2)
-        } else {
-            (0, b)
+    for r in 0..5i128 {
+        let body = match r {
+            0 => s.strip_prefix('n'),
+            1 => s.strip_prefix(" n"),
+            2 => s.strip_prefix('N'),
+            3 => s.strip_prefix('n').and_then(|b| b.strip_suffix(' ')),
+            _ => s.strip_prefix('n').and_then(|b| b.strip_suffix('_')),
+        };
+        if let Some(k) = body.and_then(|b| b.parse::<i128>().ok()) {
+            if k >= 0 && var_name(5 * k + r) == s {
+                return Some(5 * k + r);
+            }
         }
-    } else {
-        return None;
-    };
-    let k: i128 = body.parse().ok()?;
-    (var_name(4 * k + r) == s).then_some(4 * k + r)
+    }
+    None
 }
 
 /// tree -> instruction.  `strings` is the case's string table (for PrintString).
